@@ -124,15 +124,15 @@ def rare(time, xlab, dx, p_cj, d_cj, gam, u_piston):
 
         # residual q's
         ur = u_piston
-        pr = p_cj * (1 + gamm1 * (u - u_cj) / (2.0 * c_cj))**(2.0 * gam / gamm1)
-        cr = c_cj * (1 + gamm1 * (u - u_cj) / (2.0 * c_cj))
-        rhor = rho_cj * (p / p_cj)**(1.0 / gam)
+        pr = p_cj * (1 + gamm1 * (ur - u_cj) / (2.0 * c_cj))**(2.0 * gam / gamm1)
+        cr = c_cj * (1 + gamm1 * (ur - u_cj) / (2.0 * c_cj))
+        rhor = rho_cj * (pr / p_cj)**(1.0 / gam)
 
         # avg q's
         u = ur + (u - ur) * 2.0 * h / dx
         p = pr + (p - pr) * 2.0 * h / dx
         c = cr + (c - cr) * 2.0 * h / dx
-        rho = rho + (rho - rhor) * 2.0 * h / dx
+        rho = rhor + (rho - rhor) * 2.0 * h / dx
     # solution in the constant state
     else:
         u = u_piston
